@@ -128,6 +128,10 @@ class SimRun:
                 from eudoxia.utils import Priority
                 for a in asg:
                     a.priority = Priority(a.priority.value % 3 + 1)
+                    if r['relabel'] == 2:
+                        # ... and that flags its assignments as resumes (the flag is informational: the executor
+                        # starts a container for a flagged assignment like for any other, and it is a decision)
+                        a.is_resume = True
             pending['susp'] = [(cid(x.container_id), x.pool_id) for x in sus]
             pending['asg'] = [([w.gid[o] for o in a.ops], a.cpu, a.ram, PRIO_VAL[a.priority], a.pool_id) for a in asg]
             pending['asg_tick'] = len(me.ticks)       # the tick these decisions are for (not yet executed)
